@@ -289,5 +289,6 @@ OneRowPerLogin ==
                   /\ out.rows[k].name = inp.recs[k].user /\ out.rows[k].host = inp.recs[k].host
                   /\ out.rows[k].started = inp.recs[k].tstamp /\ out.rows[k].pid = inp.recs[k].pid
 
-DumpL == PrintT(<<"TR", ToJson(<<inp, out>>), ToJson(ev'), ToJson(<<inp', out'>>), TLCGet("level")>>)
+\* only the event is consumed by the replayer (functional.events_of): keep the line short
+DumpL == PrintT(<<"TR", "s", ToJson(ev'), "t", TLCGet("level")>>)
 =============================================================================
